@@ -30,6 +30,12 @@ def r1_weights(ctx):
             if cfi is None or len(ls) != 1:
                 ctx.add("R1", "%s|structure|%s" % (qn, tag), "UNDECIDED", "expected validation and one solve", fn=qn)
                 continue
+            if qn.endswith("Spline.fit"):
+                sets = {e.data[1] for e in p.events if e.kind == "setattr" and e.data[0] == Q.SELF}
+                jc = [e.data[0] for e in p.events if e.kind == "call" and e.data[0][1] == ("attr", Q.SELF, "jacobian")]
+                stale = bool(jc) and len(jc[0][2]) >= 2 and jc[0][2][1] == Q.self_attr("force_coords_") and "force_coords_" not in sets
+                ctx.check("R1", "%s|system-built-for-this-data|%s" % (qn, "stale" if stale else "fresh"), False if stale else True, "the linear system solved is the one of the data given to this fit",
+                          bad="the Jacobian is built on self.force_coords_ left by an earlier fit: the weighted least-squares problem solved is not the one of the new data", fn=qn, line=p.line)
             w = Q.arg(ctx, ls[0], "weights")
             okv = cfi[2][:3] == (("param", "coordinates"), ("param", "data"), ("param", "weights"))
             ok = True if w == Q.sub(cfi, 2) and okv else (False if w is None or w == NONE or w == Q.sub(cfi, 1) or (isinstance(w, tuple) and w != Q.sub(cfi, 2) and any(x == Q.sub(cfi, 2) for x in walk(w))) else None)
